@@ -22,6 +22,7 @@ LEVEL_TEXT = ("For small generated files - plain and gzip, FASTQ and FASTA, sing
               "prefix. A run that exceeds the watchdog is a violation only if all its processes sleep without consuming CPU (deadlock).")
 LEVEL_TEXT += " Further fault classes: bit flips in body and stored CRC of 900-record gz/bz2/xz files (also as R2 of a pair), corrupted records in a multi-chunk file with compressed outputs, interleaved FASTA with an odd record count, blank lines after the last record (odd and even record counts), a quality character outside '!'..'~' (known finding)."
 LEVEL_TEXT += ' In a quarter of the single-file layouts the reads go to standard output; an error message is a line on standard error beyond the informational ones.'
+LEVEL_TEXT += ' The first file of a pair truncated, down to an empty (also empty gzip) file, with the second complete.'
 LEVEL_NOTE = ("Trusted base: fastx.parse_fastq/parse_fasta (strict), Python's gzip module, process sampling via /proc. The expected output is "
               "produced by the real tool on the well-formed prefix with one core. Bit flips are applied to the deflate body and trailer only "
               "(header flips can leave a valid stream). Process deaths are not injected.")
